@@ -117,7 +117,23 @@ class C07(Prop):
             mk_num_case("weighted_var", "f64", [([2], [-1.0, 1.5 * 2.0 ** -53], contiguous([2])), ([2], [2.0 ** -100, 1.0], contiguous([2]))], z, ddof=0.0),
             mk_num_case("weighted_std", "f64", [([2], [-1.0, 1.5 * 2.0 ** -53], contiguous([2])), ([2], [2.0 ** -100, 1.0], contiguous([2]))], z, ddof=0.0),
             mk_num_case("weighted_var", "f32", [([2], [-1.0, 1.5 * 2.0 ** -24], contiguous([2])), ([2], [2.0 ** -60, 1.0], contiguous([2]))], enc_vals("f32", [0.0])[0], ddof=0.0),
-        ]
+        ] + self._d7_witnesses()
+
+    def _d7_witnesses(self):
+        """D7 (fixed): the coefficients of the correction polynomial were the binomials of order p + 1, so the error of
+        the computed mean was not cancelled: mean 1e8, unit spread, third central moment off by 1e-9 (1e7 u sum|x - xbar|^3 / n)"""
+        from ..layouts import contiguous
+        xs = [100000000.25, 100000001.5, 100000002.75, 100000000.0, 100000001.0, 100000002.5, 100000000.75,
+              100000001.25, 100000002.0, 100000000.5, 100000001.75]
+        out = []
+        for p in (2, 3, 4, 5):
+            out.append(mk_num_case("central_moment", "f64", [([11], xs, contiguous([11]))], "%d" % p, order=p))
+        out.append(mk_num_case("central_moments", "f64", [([11], xs, contiguous([11]))], "5", order=5))
+        out.append(mk_num_case("skewness", "f64", [([11], xs, contiguous([11]))]))
+        out.append(mk_num_case("kurtosis", "f64", [([11], xs, contiguous([11]))]))
+        xs32 = [4096.0 + v for v in (0.25, 1.5, 2.75, 0.0, 1.0, 2.5, 0.75, 1.25, 2.0, 0.5, 1.75)]
+        out.append(mk_num_case("central_moment", "f32", [([11], xs32, contiguous([11]))], "3", order=3))
+        return out
 
     def parse(self, case):
         parse_num(case)
@@ -158,6 +174,18 @@ class C07(Prop):
         def amu(p):
             return sum(abs(v - mean) ** p for v in X) / n
 
+        # the error of the computed mean (delta) is cancelled to first order by the Horner correction with the
+        # order-p binomial coefficients (defect D7 was exactly that it was not): it enters the bound only through
+        # the deviations |x_i - xbar| + delta that the rounding errors are relative to
+        scale = max(abs(v) for v in X) if X else Fraction(1)
+        delta = 4 * (n + 14) * fp.u * scale
+
+        def amu_d(p):
+            return sum((abs(v - mean) + delta) ** p for v in X) / n
+
+        def cm_bound(p):
+            return 64 * (n + p) * fp.u * amu_d(p) + Fraction(1, 2 ** (140 if et == "f32" else 1000))
+
         def check(p, got):
             g = fval(et, got)
             if p == 0:
@@ -166,11 +194,9 @@ class C07(Prop):
                 return [] if g == 0.0 else ["value: central moment of order 1 is %r, must be exactly 0" % g]
             if not finite(g):
                 return ["value: central moment of order %d not finite" % p]
-            scale = max(abs(v) for v in X) if X else Fraction(1)
-            cond = amu(p) + p * scale * amu(p - 1) + (scale * fp.u * 8) ** p
-            bound = 64 * (n + p) * fp.u * cond + Fraction(1, 2 ** (140 if et == "f32" else 1000))
+            bound = cm_bound(p)
             if abs(Fraction(g) - mu(p)) > bound:
-                return ["value: central moment order %d = %r, exact %r (|err| %.3e > assumed bound %.3e)" % (
+                return ["value: central moment order %d = %r, exact %r (|err| %.3e > bound %.3e = 64 (n + p) u (1/n) sum (|x - xbar| + delta)^p)" % (
                     p, g, float(mu(p)), float(abs(Fraction(g) - mu(p))), float(bound))]
             return []
 
@@ -193,11 +219,18 @@ class C07(Prop):
             want = float(mu(4)) / float(m2) ** 2
         else:
             want = float(mu(3)) / float(m2) ** 1.5
-        scale = float(max(abs(v) for v in X))
-        cond = (float(amu(4 if r == "kurtosis" else 3)) / float(m2) ** (2 if r == "kurtosis" else 1.5))
-        tol = 4096 * n * float(fp.u) * (cond + 1) * (1 + scale / float(m2) ** 0.5)
-        if not finite(g) or abs(g - want) > tol * max(1.0, abs(want)):
-            return ["value: %s = %r, definition gives %r" % (r, g, want)]
+        b2 = cm_bound(2)
+        if 4 * b2 > m2:
+            return []       # the variance is not resolved by the arithmetic: no bound on the ratio
+        if r == "kurtosis":
+            m4 = mu(4)
+            tol = float(2 * (cm_bound(4) + 3 * abs(m4) * b2 / m2) / m2 ** 2)
+        else:
+            m3 = mu(3)
+            tol = float(2 * (cm_bound(3) + 3 * abs(m3) * b2 / m2) / (m2 * Fraction(float(m2) ** 0.5)))
+        tol += 64 * float(fp.u) * abs(want) + float(Fraction(1, 2 ** (120 if et == "f32" else 900)))
+        if not finite(g) or abs(g - want) > tol:
+            return ["value: %s = %r, definition gives %r (|err| %.3e > bound %.3e)" % (r, g, want, abs(g - want), tol)]
         return []
 
     def _var(self, et, x, w, ddof, got, is_std):
